@@ -368,6 +368,9 @@ var c03Probes = []struct {
 	{"static-block-var", "let a;class b{static{var a}}", "let a;class b{static{var a;}}"},
 	{"nested-body-in-parens", "({}+function(){[a]})", "(({})+(function(){[a];}))"},
 	{"for-in-head-identifier-async", "for(async in c);for(async.p in c);", "for((async) in (c));for(((async).p) in (c));"},
+	{"asi-after-arrow-block-body", "x=()=>{}\n(1);y=a=>b=>{}\n[2].z;w=()=>{}\n/r/.test(q);v=()=>{}\n+1", "x=()=>{};(1);y=a=>b=>{};[2].z;w=()=>{};/r/.test(q);v=()=>{};+1"},
+	{"asi-after-async-arrow-and-yield", "let u=async(a)=>{}\n/r/;function*g(){x=yield\n(1)}", "let u=async(a)=>{};/r/;function*g(){x=yield;(1)}"},
+	{"no-asi-when-the-line-continues", "x=()=>{}\n,y=2;z=()=>a\n(1);f=function(){}\n(2)", "x=()=>{},y=2;z=()=>a(1);f=function(){}(2)"},
 	{"for-init-async-function-with-in", "for(async function(){a in b};;);", "for((async function(){(a in b);});;);"},
 }
 
